@@ -85,6 +85,20 @@ def moved_subtree_probe(mk):
             "setparent zq3 zq2", "crate.q zq2 children", "crate.q zq1 children", "db.q root_crates"]
 
 
+def failed_call_probe():
+    """calls that FAIL half-way (a name already taken under the target parent: the UNIQUE constraint refuses the last
+    statement of the move / rename), followed by the ordered queries of every sibling list involved: a multi-statement
+    re-linking that is not rolled back leaves a sibling list without a tail, and the next children() / root_crates()
+    dereferences end().  First / only / last sibling, into a sub-crate list and into the root list."""
+    return ["mkroot zr1 7a7231", "mkroot zr2 7a7232", "mksub zr3 zr1 58", "mksub zr4 zr2 58", "mksub zr7 zr2 59",
+            "setparent zr3 zr2", "crate.q zr1 children", "crate.q zr2 children", "db.q root_crates",
+            "mkroot zr5 5a", "mksub zr6 zr1 5a", "setparent zr6 -", "db.q root_crates", "crate.q zr1 children",
+            "rename zr6 58", "crate.q zr1 children", "crate.q zr1 descendants",
+            "mksub zr8 zr2 5a", "setparent zr5 zr2", "db.q root_crates", "crate.q zr2 children", "db.q crates",
+            "mksub zr9 zr1 59", "setparent zr7 zr1", "crate.q zr2 children", "crate.q zr1 children",
+            "crate.q zr3 parent", "crate.q zr7 parent", "db.q crates_by_name 58"]
+
+
 def run_pair(scripts, watchdog=15):
     hres = runner.run_harness(scripts, watchdog=watchdog, stateless=False)
     mres = runner.run_model(scripts)
